@@ -15,7 +15,11 @@ Correspondence: every operator tree over the union alphabet x every language mod
                and the reflected form, chained), .clone(), .cast_to(M), objects built from raw operands; the value
                is observed directly, cast to every module, or handed to a modelcheck function (with and without F)
                                                                         vs  the same steps folded with (mk ..) / (cast ..)
-  names      - atoms NAMED like the printed form of a formula, interleaved with that formula in one session
+  names      - atoms NAMED like the printed form of a formula (and of its restricted-syntax rewriting), interleaved with that
+               formula in one session, bare AND inside an enclosing LTL / CTL* context, every part guarded before and after
+  absorbed   - guards on formulas whose offending part is ABSORBED by a constant (true or x, false and x, x --> true, ...), sits
+               next to a NEUTRAL constant, or hides in the 3rd / 4th operand of an or / and BELOW the root
+  payloads   - AtomicProposition(<not a str>) must raise TypeError; the atom of a str holds that str (monitored)
 Observation = ('ok', tree_of(result), languages of ALL nodes) or ('err', exception enum).  The model's reading of the
 documented grammars (member bits, mk/cast/guard verdicts) is double-checked against the independent recognisers of
 common.py; a disagreement THERE is a machinery error (exception -> CHECK-ERROR), never a violation."""
@@ -652,6 +656,44 @@ NONK_KINDS = ('object', 'text', 'bad-object', 'object2', 'atom', 'text-atom')
 
 
 # ----------------------------------------------------------------------------------------
+# payloads of atoms that are not str (by their repr, so that a recorded case can be replayed)
+# ----------------------------------------------------------------------------------------
+ATOM_PAYLOADS = ("b'p'", "b''", "bytearray(b'p')", "memoryview(b'p')", '1', '0', '2.5', 'None', "('p',)", "['p']", "{'p'}", "frozenset('p')",
+                 'True', "b'true'", "b'A(X(p))'", "str", "object()")
+ATOM_FORMS = ('AtomicProposition', 'Not', 'Or-right', 'Or-left', 'A', 'X', 'U-right')
+
+
+def atom_form_str(form, vr):
+    return {'AtomicProposition': 'AtomicProposition(%s)', 'Not': 'Not(%s)', 'Or-right': "Or('p', %s)", 'Or-left': "Or(%s, 'p')", 'A': 'A(%s)',
+            'X': 'X(%s)', 'U-right': "U('p', %s)"}[form] % vr
+
+
+def atom_payload_obs(Ln, vr, form):
+    """-> ('ok', short description) | ('err', enum).  Bool payloads are legal raw operands of operators (they mean the constants) and
+    are only used with the AtomicProposition form."""
+    L = lang_module(Ln)
+    X = eval(vr, {})
+    if form != 'AtomicProposition' and isinstance(X, bool):
+        return ('err', 'TypeError')
+
+    def go():
+        if form == 'AtomicProposition':
+            return L.AtomicProposition(X)
+        if form == 'Not':
+            return L.Not(X)
+        if form == 'Or-right':
+            return L.Or('p', X)
+        if form == 'Or-left':
+            return L.Or(X, 'p')
+        cls = getattr(L, {'A': 'A', 'X': 'X', 'U-right': 'U'}[form], None)
+        if cls is None:
+            raise TypeError('no such class')
+        return cls('p', X) if form == 'U-right' else cls(X)
+    r = call(go)
+    return (r[0], (type(r[1]).__module__.split('.')[-2] + '.' + type(r[1]).__name__ + ' ' + str(r[1])[:60]) if r[0] == 'ok' else r[1])
+
+
+# ----------------------------------------------------------------------------------------
 # case generation
 # ----------------------------------------------------------------------------------------
 def relabel(rng, f):
@@ -662,6 +704,46 @@ def relabel(rng, f):
 
 def nary3(pool):
     return [(t, a, b, c) for t in OPSN for a in pool for b in pool for c in pool]
+
+
+P_, Q_, T_, F_ = ('ap', 'p'), ('ap', 'q'), ('true',), ('false',)
+# sub-formulas that put a formula outside CTL / LTL (quantifiers LTL does not have or only has at the root, bare path formulas)
+OFFENDERS = [('E', P_), ('A', ('X', P_)), ('E', ('U', P_, Q_)), ('A', ('F', ('G', P_))), ('E', ('G', ('F', Q_))), ('A', ('not', ('X', Q_))),
+             ('X', P_), ('U', P_, Q_), ('F', ('G', P_))]
+
+
+def contexts_of(w):
+    """the formula w alone and below quantifiers / temporal operators / a Boolean connective"""
+    return [w, ('A', w), ('E', w), ('A', ('X', w)), ('A', ('U', w, P_)), ('A', ('G', ('or', w, Q_))), ('or', ('A', w), Q_),
+            ('A', ('not', w)), ('A', ('imp', Q_, w))]
+
+
+def absorbed_templates(x):
+    """x made semantically irrelevant by a CONSTANT (absorbing element), kept by a neutral constant, doubly negated: a guard that runs
+    after constant folding / simplification no longer sees (or wrongly drops) the operator that puts the formula outside the logic"""
+    nx = ('not', x)
+    return [('or', T_, x), ('or', x, T_), ('or', P_, x, T_), ('or', nx, T_), ('and', F_, x), ('and', x, F_), ('and', x, Q_, F_), ('and', F_, nx),
+            ('imp', F_, x), ('imp', x, T_), ('or', ('not', F_), x), ('and', ('not', T_), x), ('not', ('or', x, T_)), ('not', ('and', F_, x)),
+            ('or', F_, x), ('and', T_, x), ('and', x, T_), ('imp', T_, x), ('imp', x, F_), ('not', nx), ('not', ('not', nx)),
+            ('or', ('and', F_, x), P_), ('and', ('or', T_, x), Q_)]
+
+
+def hidden_templates(x):
+    """x in every operand position of a 3-ary and (some of) a 4-ary or / and (the library's connectives are n-ary; the audit's escape
+    looked at the first two operands only)"""
+    out = []
+    for t in OPSN:
+        out += [(t, x, P_, Q_), (t, P_, x, Q_), (t, P_, Q_, x), (t, P_, Q_, ('not', x)), (t, P_, Q_, T_, x), (t, P_, F_, x, Q_),
+                (t, P_, Q_, ('not', Q_), ('X', x)), (t, ('X', P_), Q_, x)]
+    return out
+
+
+def offender_stream(templ):
+    out = []
+    for x in OFFENDERS:
+        for w in templ(x):
+            out += contexts_of(w)
+    return list(dict.fromkeys(out))
 
 
 def gen_depth3(rng, n, d2, members):
@@ -717,7 +799,16 @@ def run(R):
               'fairness argument F (5 shapes; then accepted / rejected + exception are compared, the returned states are C15); non-Kripke first '
               'arguments include Kripke-LIKE objects (delegating wrapper, duck-typed class, DiGraph subclass with labels, namespace of bound methods) x '
               '6 formula arguments x 4 values of F; NAMES = sessions in which a formula, then atoms named like its printed form (alone, negated, in a '
-              'disjunction), then the formula again are cast to every module and guarded, plus fixed odd names (true, not p, A(X(p)), the empty name)')
+              'disjunction), then the formula again are cast to every module and guarded, plus fixed odd names (true, not p, A(X(p)), the empty name); '
+              'in every session the guards also run on the argument INSIDE two of 10 enclosing contexts (A X ., A(. or q), A(q U .), E F ., ...: the atom '
+              'and the formula print alike there), a second atom is named like the restricted-syntax rewriting of the formula, and the formula part is '
+              'guarded again AFTER the atoms (ordered pairs of calls in one process).  ABSORBED / HIDDEN offenders: 9 offending sub-formulas x '
+              '{absorbed by a constant: true or x, x or true, false and x, x --> true, false --> x, ...; kept by a neutral constant; doubly negated; '
+              'in each operand position of a 3-ary and in the 3rd / 4th position of a 4-ary or / and} x 9 contexts (alone, under A, E, A X, A U, '
+              'A G(. or q), A . or q, A not, A(q --> .)) guarded by the three checkers (sampled 500 + 300 in quick) and, for the n-ary ones plus random '
+              '3-/4-ary connectives below the root, pushed through construct / cast / guard like every other tree.  PAYLOADS: AtomicProposition(v) for 17 '
+              'values v that are not str (bytes, bytearray, memoryview, numbers, containers, a class) must raise TypeError, the operators given v as a '
+              'raw operand must not return an object, and the atom of a str holds exactly that str')
 
     # ---- 0. corpus of past defects (D12, D13) ----------------------------------------------
     run_apply(R, J, [(c['lang'], c['op'], c['operands']) for c in CORPUS], corpus=True)
@@ -744,10 +835,24 @@ def run(R):
         if g not in seen_t and any(x in (('false',), ('ap', 'q')) for x in subformulas(g)):
             seen_t.add(g)
             variants.append(g)
-    trees = trees + d1x + variants
+    # 3- and 4-ary or / and BELOW the root (under quantifiers, temporal operators, connectives), each operand position in turn deep
+    inner = [f for f in offender_stream(hidden_templates) if f not in seen_t]
+    fill = [g for g in d1 if g[0] not in LEAFT]
+    for _ in range(4000 if R.thorough else 250):
+        k = rng.choice((3, 3, 4))
+        kids = [rng.choice(LEAVES4) for _i in range(k)]
+        kids[rng.randrange(k)] = rng.choice(fill)
+        w = (rng.choice(OPSN),) + tuple(kids)
+        inner.append(rng.choice(contexts_of(w)[1:]))
+    inner = [f for f in dict.fromkeys(inner) if f not in seen_t]
+    if not R.thorough:
+        inner = rng.sample(inner, min(len(inner), 300))
+    seen_t.update(inner)
+    trees = trees + d1x + variants + inner
     assert len(set(trees)) == len(trees)
     R.cov['trees'] = {'depth<=2 binary (exhaustive)': len(d2), 'ternary depth 1': len(t3_1), 'ternary depth 2': len(t3_2), 'depth 3 sampled': len(d3),
-                      'depth<=1 over the leaves p,q,true,false (exhaustive, new ones)': len(d1x), 'deeper shapes with leaves redrawn from p,q,true,false': len(variants)}
+                      'depth<=1 over the leaves p,q,true,false (exhaustive, new ones)': len(d1x), 'deeper shapes with leaves redrawn from p,q,true,false': len(variants),
+                      '3-/4-ary or/and below the root (offender or deep operand in each position)': len(inner)}
     R.cov['recogniser_cross_checks'] = check_recognisers(trees)
 
     mark('trees+recognisers')
@@ -856,9 +961,7 @@ def run(R):
     gobjs += rng.sample(deep, min(len(deep), 4000 if R.thorough else 150))
     # formulas whose offending part is REDUNDANT (x or not x, x and not x, x --> x, repeated operands): a guard that runs after some
     # simplification / rewriting of the formula would no longer see the quantifier or operator that puts the formula outside the logic
-    P_, Q_ = ('ap', 'p'), ('ap', 'q')
-    offenders = [('E', P_), ('A', ('X', P_)), ('E', ('U', P_, Q_)), ('A', ('F', ('G', P_))), ('E', ('G', ('F', Q_))), ('A', ('not', ('X', Q_))),
-                 ('X', P_), ('U', P_, Q_), ('F', ('G', P_))]
+    offenders = OFFENDERS
     red = []
     for x in offenders:
         nx = ('not', x)
@@ -870,6 +973,18 @@ def run(R):
         red = rng.sample(red, min(len(red), 220))
     gobjs += [('CTLS', f) for f in red]
     R.cov['guard_redundant_offender_templates'] = len(red)
+    # the offender ABSORBED by a constant (true or x, false and x, x --> true ...), next to a neutral constant, doubly negated; and the
+    # offender in the 3rd / 4th operand of an n-ary or / and below the root
+    absorbed = offender_stream(absorbed_templates)
+    hidden = offender_stream(hidden_templates)
+    if not R.thorough:
+        absorbed = rng.sample(absorbed, min(len(absorbed), 500))
+        hidden = rng.sample(hidden, min(len(hidden), 300))
+    have = set(f for (_l, f) in gobjs)
+    extra = [f for f in dict.fromkeys(absorbed + hidden) if f not in have]
+    gobjs += [('CTLS', f) for f in extra]
+    R.cov['guard_absorbed_offender_templates'] = len(absorbed)
+    R.cov['guard_offender_in_3rd_4th_operand_below_root'] = len(hidden)
     gcases = [(Mn, Ln, f) for (Ln, f) in gobjs for Mn in CHECKERS]
     outs = model_batch_parallel([guard_cmd(Mn, Ln, ks, f) for (Mn, Ln, f) in gcases])
     for (Mn, Ln, f), o in zip(gcases, outs):
@@ -978,6 +1093,30 @@ def run(R):
             r = call(lambda: (type(L.Bool(X)._value), L.Bool(X)._value))
             if r != ('ok', (bool, X)):
                 J.bad('%s.Bool(%r) does not hold the Python bool' % (Ln, X), {'kind': 'bool_ctor', 'lang': Ln, 'value': repr(X), 'impl': [r[0], str(r[1])[:80]]})
+
+    # ---- 5c. the payload of an atom is a str and nothing else (documented ":type name: str"): bytes / bytearray / numbers / containers
+    #          would give an object that is no documented formula (and silently ANOTHER atom: "b'p'"); an operator handed such a value
+    #          as a raw operand must not return an object either (which exception it raises is outside the quantifier, see 6.)
+    np_ = 0
+    for Ln in LANGS:
+        for vr in ATOM_PAYLOADS:
+            for form in ATOM_FORMS:
+                R.evaluations += 1
+                np_ += 1
+                r = atom_payload_obs(Ln, vr, form)
+                good = (r == ('err', 'TypeError')) if form == 'AtomicProposition' else r[0] == 'err'
+                if not good:
+                    J.bad('%s.%s did not raise %s: a value that is not a str became (part of) a formula' % (Ln, atom_form_str(form, vr), 'TypeError' if form == 'AtomicProposition' else 'an exception'),
+                          {'kind': 'atom_ctor', 'lang': Ln, 'value': vr, 'form': form, 'impl': list(r), 'model': ['err', 'TypeError']})
+                else:
+                    R.nontriv(('atom_ctor', Ln, vr, form))
+        for nm in ('p', '', 'A(X(p))', 'true', ' q', 'p\u00e9'):
+            R.evaluations += 1
+            r = call(lambda: (lambda a: (type(a.name), a.name, tree_of(a)))(lang_module(Ln).AtomicProposition(nm)))
+            if r != ('ok', (str, nm, ('ap', nm))):
+                J.bad('%s.AtomicProposition(%r) does not hold the given str' % (Ln, nm), {'kind': 'atom_ctor', 'lang': Ln, 'value': repr(nm), 'form': 'name',
+                                                                                          'impl': [r[0], str(r[1])[:80]], 'model': ['ok', repr(nm)]})
+    R.cov['atom_payloads_not_str'] = {'values': list(ATOM_PAYLOADS), 'forms': list(ATOM_FORMS), 'cases': np_}
 
     # ---- 6. informational: operands that are not formulas at all (outside the property's quantifier) ---------
     info = collections.Counter()
@@ -1100,16 +1239,29 @@ NAME_FIXED = (('true', ('true',)), ('false', ('false',)), ('True', ('true',)), (
               ('p --> q', ('imp', P0, Q0)), ('(p)', P0), (' p', P0), ('', None))
 
 
-def name_session(rng, Ln, f, name):
-    """ONE session: steps on the formula f (may be None), then on atoms named `name` (= the printed form of f), then on f again; the
-    order within each part is random.  Every step is compared with the model; a recorded case carries the steps before it."""
+# enclosing contexts for the names sessions: the atom named like f and f itself sit at the same place of the same LTL / CTL* formula, so the
+# two arguments print alike (a cache, memo or table keyed by the formula / its text cannot tell them apart) but only one is in the logic
+NAME_CTX = (lambda w: ('A', ('X', w)), lambda w: ('A', ('or', w, Q0)), lambda w: ('A', ('U', Q0, w)), lambda w: ('E', ('F', w)),
+            lambda w: ('A', ('G', ('not', w))), lambda w: ('A', ('or', P0, Q0, w)), lambda w: ('A', w), lambda w: ('not', ('E', ('X', w))),
+            lambda w: ('A', ('and', ('F', w), Q0)), lambda w: ('E', ('U', w, ('X', P0))))
+
+
+def name_session(rng, Ln, f, name, name2=None):
+    """ONE session: steps on the formula f (may be None), then on atoms named `name` (= the printed form of f; name2 = the printed form of
+    its rewriting to the restricted syntax), then on f again; the order within each part is random.  Guards run on the bare argument and
+    on the argument inside two enclosing contexts (built in the CTL* module).  Every step is compared with the model; a recorded case
+    carries the steps before it."""
     at = ('ap', name)
+    ats = [at] + ([('ap', name2)] if name2 is not None and name2 != name else [])
     xs = [at, ('not', at), ('or', at, ('ap', 'q'))]
+    ctx = [NAME_CTX[i] for i in rng.sample(range(len(NAME_CTX)), 2)]
     fsteps = [] if f is None else [['cast', Ln, f, Mn] for Mn in LANGS] + [['guard', Mn, Ln, f] for Mn in CHECKERS]
     fsteps += [] if f is None else [['apply', Mn, op, Ln, f] for Mn in LANGS if Mn != Ln for op in ('not', 'A')]
+    fsteps += [] if f is None else [['guard', Mn, 'CTLS', C(f)] for C in ctx for Mn in CHECKERS]
     asteps = [['cast', Ln, x, Mn] for x in xs for Mn in LANGS] + [['guard', Mn, Ln, at] for Mn in CHECKERS]
     asteps += [['apply', Mn, op, Ln, at] for Mn in LANGS if Mn != Ln for op in ('not', 'A')]
-    f2 = [st for st in fsteps if st[0] != 'guard']
+    asteps += [['guard', Mn, 'CTLS', C(a)] for a in ats for C in ctx for Mn in CHECKERS]
+    f2 = list(fsteps)
     rng.shuffle(fsteps)
     rng.shuffle(asteps)
     rng.shuffle(f2)
@@ -1136,17 +1288,25 @@ def step_impl(st, K):
 def run_names(R, J, rng, built, K, ks):
     cand = [b for b in built if 1 <= fheight(b[1]) <= 2]
     sessions = []
-    for (Ln, f) in rng.sample(cand, min(len(cand), 800 if R.thorough else 110)):
+    nses = 800 if R.thorough else 110
+    # half of the sessions about formulas with a quantifier inside (the ones an enclosing LTL / CTL context must reject)
+    candq = [b for b in cand if any(g[0] in ('A', 'E') for g in subformulas(b[1]))]
+    picks = rng.sample(candq, min(len(candq), nses // 2)) + rng.sample(cand, min(len(cand), nses - nses // 2))
+    nrestricted = 0
+    for (Ln, f) in dict.fromkeys(picks):
         r = call(lambda: str(build(f, lang_module(Ln))))
         if r[0] == 'ok' and isinstance(r[1], str) and all(ord(c) < 256 for c in r[1]):
-            sessions.append(name_session(rng, Ln, f, r[1]))
+            r2 = call(lambda: str(build(f, lang_module('CTLS')).get_equivalent_restricted_formula()))
+            n2 = r2[1] if r2[0] == 'ok' and isinstance(r2[1], str) and all(ord(c) < 256 for c in r2[1]) and r2[1] != r[1] else None
+            nrestricted += n2 is not None
+            sessions.append(name_session(rng, Ln, f, r[1], n2))
     bs = set(built)
     for name, f in NAME_FIXED:
         for Ln in (LANGS if R.thorough else rng.sample(LANGS, 2)):
             sessions.append(name_session(rng, Ln, f if (Ln, f) in bs else None, name))
     outs = iter(model_batch_parallel([step_cmd(st, ks) for ses in sessions for st in ses]))
     n = 0
-    for ses in sessions:
+    for si, ses in enumerate(sessions):
         for i, st in enumerate(ses):
             o = next(outs)
             n += 1
@@ -1162,9 +1322,12 @@ def run_names(R, J, rng, built, K, ks):
                                   'python': '%s.%s(<%s object %s>)' % (st[1], PYNAME[st[2]], st[3], fstr(st[4]))}, obs, model_built(o), untouched=same)
             else:
                 obs, _ = step_impl(st, K)
-                J.guard({'kind': 'guard', 'checker': st[1], 'lang': st[2], 'tree': st[3], 'tree_str': fstr(st[3]), 'prelude': ses[:i]}, obs, model_mc(o),
-                        conservative_ok=cons_guard(st[1], st[2]))
-    R.cov['atoms_named_like_formulas'] = {'sessions': len(sessions), 'steps': n}
+                ok = J.guard({'kind': 'guard', 'checker': st[1], 'lang': st[2], 'tree': st[3], 'tree_str': fstr(st[3]), 'prelude': ses[:i]}, obs, model_mc(o),
+                             conservative_ok=cons_guard(st[1], st[2]))
+                if ok and fheight(st[3]) >= 1:
+                    R.nontriv(('names-guard', si, i))
+    R.cov['atoms_named_like_formulas'] = {'sessions': len(sessions), 'steps': n, 'sessions with a second atom named like the restricted-syntax form': nrestricted,
+                                          'enclosing contexts (2 per session)': len(NAME_CTX)}
 
 
 def run_apply(R, J, acases, corpus=False):
@@ -1235,6 +1398,17 @@ def replay(R, data):
         obs = call(lambda: lang_module(d['lang']).Bool(X))
         obs = (obs[0], str(obs[1]))
         m = ('err', 'TypeError') if not isinstance(X, bool) else ('ok', str(X).lower())
+    elif kind == 'atom_ctor':
+        if d['form'] == 'name':
+            nm = eval(d['value'], {})
+            r = call(lambda: lang_module(d['lang']).AtomicProposition(nm).name)
+            obs, m = (r[0], repr(r[1]) if r[0] == 'ok' else r[1]), ('ok', repr(nm))
+        else:
+            print('call : %s.%s' % (d['lang'], atom_form_str(d['form'], d['value'])))
+            obs = atom_payload_obs(d['lang'], d['value'], d['form'])
+            m = ('err', 'TypeError')
+            if d['form'] != 'AtomicProposition' and obs[0] == 'err':
+                m = obs             # an operator: any exception (the class is outside the property's quantifier)
     elif kind == 'guard':
         if d.get('structure'):
             from pyModelChecking.kripke import Kripke as _Kripke
